@@ -104,8 +104,13 @@ def run(prog, ctx):
                 res.undecided += 1
             if sym.contains(e, lambda t: t[0] == "field" and t[2] == "seed"):
                 res.discharged += 1
-            else:
+            elif sym.contains(e, lambda t: t[0] == "field" and t[1] == ("param", 1, "self") and "seed" in t[2]):
+                res.discharged += 1
+            elif not sym.contains(e, lambda t: t[0] == "field" and t[1] == ("param", 1, "self") and t[2] != "lg_k"):
+                # no field of the sketch other than lg_k flows into the pair: the hasher cannot depend on the configured seed
                 res.violate("C05.R", "C05.R|seed", "CpcSketch::update does not seed the hasher with the sketch seed", upd.id)
+            else:
+                res.undecided += 1
     res.rule("C05.R", n_r, 1, "row/col derivation")
 
     # ---------------- C05.N novelty pairing
@@ -123,44 +128,68 @@ def run(prog, ctx):
             novel = [x for x in facts if x[0] == "true"]
             if novel:
                 res.discharged += 1
+            elif facts:
+                res.undecided += 1      # guarded by something this rule does not recognise as the novelty flag
             else:
-                res.violate("C05.N", "C05.N|%s|count" % f.id, "num_coupons is incremented in %s without being guarded by the novelty flag" % f.id, f.id, span)
+                res.violate("C05.N", "C05.N|%s|count" % f.id, "num_coupons is incremented in %s unconditionally (not guarded by the novelty of the coupon)" % f.id, f.id, span)
             hip = [bb for bb, st in f.calls() if (st.get("callee") or "").endswith("::update_hip")]
             if hip and any(set(repr(x) for x in s.cmp_facts_at(h)) == set(repr(x) for x in facts) for h in hip):
                 res.discharged += 1
+            elif hip and any(not s.cmp_facts_at(h) for h in hip) and facts:
+                res.violate("C05.N", "C05.N|%s|hip" % f.id, "the HIP update in %s runs unconditionally while the coupon count increment is guarded" % f.id, f.id, span)
             else:
-                res.violate("C05.N", "C05.N|%s|hip" % f.id, "the HIP update in %s is not paired with the coupon count increment" % f.id, f.id, span)
+                res.undecided += 1
         # zones
         dels = [b for b, st in f.calls() if (st.get("callee") or "").endswith("::maybe_delete")]
         inss = [b for b, st in f.calls() if (st.get("callee") or "").endswith("::maybe_insert")]
-        if dels:
-            col_e = None
-            for b in dels:
-                res.obligations += 1
-                ok = any(x[0] == "Lt" and len(x) == 3 and show(x[2]).endswith("window_offset") for x in s.cmp_facts_at(b))
-                if ok:
-                    res.discharged += 1
-                else:
-                    res.violate("C05.N", "C05.N|%s|early-zone" % f.id, "maybe_delete (early zone) in %s is not selected by col < window_offset" % f.id, f.id)
-            for b in inss:
-                res.obligations += 1
-                fx = s.cmp_facts_at(b)
-                ok = any(x[0] == "Ge" and len(x) == 3 and C.is_bin(x[2], "Add") and 8 in C.consts_in(x[2]) and "window_offset" in show(x[2]) for x in fx)
-                if ok:
-                    res.discharged += 1
-                else:
-                    res.violate("C05.N", "C05.N|%s|late-zone" % f.id, "maybe_insert (late zone) in %s is not selected by col >= window_offset + 8" % f.id, f.id)
-            for (b, base, ie, val, span, _s) in C.buffer_stores(prog, f, "sliding_window"):
-                res.obligations += 1
-                fx = s.cmp_facts_at(b)
-                ok = any(x[0] == "Ne" for x in fx) and any(x[0] == "Lt" and len(x) == 3 and 8 in C.consts_in(x[2]) for x in fx) and \
-                    any(x[0] == "Ge" and len(x) == 3 and show(x[2]).endswith("window_offset") for x in fx)
-                bit = C.find_sub(val, lambda t: C.is_bin(t, "Shl") and C.const_of(t[2]) == 1)
-                ok = ok and bit is not None and C.is_bin(bit[3], "Sub") and "window_offset" in show(bit[3][3]) and C.is_bin(val, "BitOr")
-                if ok:
-                    res.discharged += 1
-                else:
-                    res.violate("C05.N", "C05.N|%s|window-zone" % f.id, "the window bit store in %s is not `old | 1 << (col - offset)` under offset <= col < offset + 8 and old != new" % f.id, f.id, span)
+        if dels and inss and f.argc >= 2:
+            # zones by evaluation of the exact path conditions over every (col, window_offset): early zone (col < offset) reaches
+            # the delete, late zone (col >= offset + 8) reaches the insert, the window zone reaches neither and stores
+            # old | 1 << (col - offset) into the row's window byte
+            pname = f.local_name(2) or "arg2"
+            preds_d = [C.path_pred(s, b) for b in dels]
+            preds_i = [C.path_pred(s, b) for b in inss]
+            stores = list(C.buffer_stores(prog, f, "sliding_window"))
+            preds_w = [C.path_pred(s, st[0]) for st in stores]
+            bad = {}
+            unknown = False
+            window = [0x00, 0x01, 0x80, 0x55, 0xff, 0x10, 0x02, 0x7f]
+            for off in range(0, 57):
+                for col in range(0, 64):
+                    for row in (0, 3, 7):
+                        env = {"@prog": prog, pname: (row << 6) | col, "self.window_offset": off, "self.sliding_window": window, "self.lg_k": 3}
+                        d = [p(env) for p in preds_d]
+                        i = [p(env) for p in preds_i]
+                        w = [p(env) for p in preds_w]
+                        if None in d or None in i:
+                            unknown = True
+                            continue
+                        zone = "early" if col < off else ("late" if col >= off + 8 else "window")
+                        if any(d) != (zone == "early"):
+                            bad.setdefault("early-zone", "col=%d offset=%d: delete %sreached" % (col, off, "" if any(d) else "not "))
+                        if any(i) != (zone == "late"):
+                            bad.setdefault("late-zone", "col=%d offset=%d: insert %sreached" % (col, off, "" if any(i) else "not "))
+                        if zone != "window" and any(x is True for x in w):
+                            bad.setdefault("window-zone", "col=%d offset=%d: window byte stored outside the window zone" % (col, off))
+                        if zone == "window":
+                            for (b_, base, ie, val, span, _s), wp in zip(stores, w):
+                                if wp is not True:
+                                    continue
+                                try:
+                                    ri = formula.evaluate(ie, env)
+                                    nv = formula.evaluate(val, env)
+                                except (formula.Uneval, IndexError, TypeError):
+                                    unknown = True
+                                    continue
+                                if ri != row or (nv & 0xff) != (window[row] | (1 << (col - off))) & 0xff:
+                                    bad.setdefault("window-zone", "col=%d offset=%d row=%d: stores %r at row %r, expected %r" % (col, off, row, nv, ri, window[row] | (1 << (col - off))))
+                            if not any(x is True for x in w) and not (window[row] >> (col - off)) & 1 and stores:
+                                bad.setdefault("window-zone", "col=%d offset=%d row=%d: a new window bit is not stored" % (col, off, row))
+            msgs = {"early-zone": "maybe_delete (early zone) in %s is not selected exactly by col < window_offset" % f.id,
+                    "late-zone": "maybe_insert (late zone) in %s is not selected exactly by col >= window_offset + 8" % f.id,
+                    "window-zone": "the window zone of %s does not store old | 1 << (col - offset) exactly for offset <= col < offset + 8" % f.id}
+            for k in ("early-zone", "late-zone", "window-zone"):
+                res.tri(False if k in bad else (None if unknown else True), "C05.N", "C05.N|%s|%s" % (f.id, k), msgs[k] + (": " + bad[k] if k in bad else ""), f.id)
     res.rule("C05.N", n_n, 2, "coupon count increments")
 
     # ---------------- C05.F thresholds
@@ -169,7 +198,8 @@ def run(prog, ctx):
     do = prog.fns.get("cpc::determine_correct_offset")
     for f, spec, nm in ((df, None, "flavor"), (do, None, "offset")):
         if f is None:
-            res.violate("C05.F", "C05.F|missing|" + nm, "cpc::determine_%s no longer exists" % nm)
+            res.obligations += 1
+            res.undecided += 1      # internal helper renamed or inlined
             continue
         s = Sym(prog, f)
         rets = [b.idx for b in f.blocks if b.term[0] == "return" and not b.cleanup]
@@ -242,6 +272,8 @@ def run(prog, ctx):
                         why = cex
                 if ok:
                     res.discharged += 1
+                elif why is None:
+                    res.undecided += 1      # no guard over (num_coupons, lg_k) recognised at this call
                 else:
                     res.violate("C05.F", "C05.F|%s|%s" % (f.id, cal.rsplit("::", 1)[-1]),
                                 "the condition guarding %s in %s differs from the published threshold%s" % (cal.rsplit("::", 1)[-1], f.id, " (e.g. %s)" % (why,) if why else ""), f.id, site["span"])
@@ -251,38 +283,44 @@ def run(prog, ctx):
     mw = C.fn_one(prog, S, "move_window")
     n_m = 0
     if mw is None:
-        res.violate("C05.M", "C05.M|missing", "CpcSketch::move_window no longer exists")
+        res.obligations += 1
+        res.undecided += 1
     else:
         s = Sym(prog, mw)
         new_off = None
         for b, place, e, span, _s in C.assignments(prog, mw):
             if not isinstance(place, int) and place[1][-1][0] == "." and place[1][-1][2] == "window_offset":
                 new_off = C.resolve_var(prog, mw, e, _s)
+        # exit values of the two fields, evaluated: window_offset' = window_offset + 1; first_interesting_column' =
+        # min(trailing zeros of the OR of all surprising bits, window_offset')
         n_m += 1
-        res.obligations += 1
-        if new_off is not None and C.is_bin(new_off, "Add") and 1 in C.consts_in(new_off) and "window_offset" in show(new_off):
-            res.discharged += 1
-        else:
-            res.violate("C05.M", "C05.M|offset", "move_window does not store window_offset + 1 (stores %s)" % (show(new_off) if new_off else "nothing"), mw.id)
-        # fic clamp
-        fic_stores = [(b, C.resolve_var(prog, mw, e, _s), span) for b, place, e, span, _s in C.assignments(prog, mw)
-                      if not isinstance(place, int) and place[1][-1][0] == "." and place[1][-1][2] == "first_interesting_column"]
-        res.obligations += 1
-        okc = False
-        for b, e, span in fic_stores:
-            if new_off is not None and e == new_off:
-                fx = [x for x in s.cmp_facts_at(b) if len(x) == 3]
-                extra = [x for x in fx if not (x[0] in ("false",))]
-                gt = [x for x in fx if (x[0] == "Gt" and "first_interesting_column" in show(x[1]) and x[2] == new_off) or
-                      (x[0] == "Lt" and "first_interesting_column" in show(x[2]) and x[1] == new_off)]
-                others = [x for x in fx if x not in gt and x[0] in ("Gt", "Lt", "Ge", "Le", "Eq", "Ne")]
-                if gt and not others:
-                    okc = True
-        if okc:
-            res.discharged += 1
+        eo = s.field_exit_value("window_offset") or s.field_exit_value_seq("window_offset")
+        ef = s.field_exit_value_seq("first_interesting_column")
+        vo = vf = None
+        try:
+            if eo is not None:
+                vo = all(formula.evaluate(eo, {"@prog": prog, "self.window_offset": o}) == o + 1 for o in range(0, 56))
+        except formula.Uneval:
+            vo = None
+        try:
+            if ef is not None:
+                vf = True
+                for o in (0, 1, 7, 30, 55):
+                    for tz in (0, 1, 5, 8, 31, 56, 63, 64):
+                        for old in (0, 3, 40, 63):
+                            env = {"@prog": prog, "self.window_offset": o, "self.first_interesting_column": old}
+                            for k_, n_ in formula.leaves(ef).items():
+                                if n_[0] == "var":
+                                    env[k_] = (1 << tz) if tz < 64 else 0      # the OR of all surprising bits, lowest set bit = tz
+                            got = formula.evaluate(ef, env)
+                            if got != min(tz, o + 1):
+                                vf = False
+        except formula.Uneval:
+            vf = None
+        res.tri(vo, "C05.M", "C05.M|offset", "move_window does not leave window_offset + 1 in window_offset (%s)" % (show(eo)[:80] if eo else "no closed form"), mw.id)
+        res.tri(vf, "C05.M", "C05.M|fic-clamp", "move_window does not leave min(first surprising column, new offset) in first_interesting_column (%s)" % (show(ef)[:120] if ef else "no closed form"), mw.id)
+        if vf:
             n_m += 1
-        else:
-            res.violate("C05.M", "C05.M|fic-clamp", "move_window does not clamp first_interesting_column to the new offset under exactly `fic > new_offset`", mw.id)
         # window byte
         res.obligations += 1
         okw = False
@@ -294,7 +332,16 @@ def run(prog, ctx):
             res.discharged += 1
             n_m += 1
         else:
-            res.violate("C05.M", "C05.M|window-byte", "move_window does not store (pattern >> new_offset) & 0xff into the window", mw.id)
+            # positive evidence only: a window store whose shift amount is recognisably the *old* offset
+            stale = False
+            for (b, base, ie, val, span, _s) in C.buffer_stores(prog, mw, "sliding_window"):
+                sh = C.find_sub(val, lambda t: C.is_bin(t, "Shr"))
+                if sh is not None and sh[3] == ("field", ("param", 1, "self"), "window_offset") and new_off is not None and sh[3] != new_off:
+                    stale = True
+            if stale:
+                res.violate("C05.M", "C05.M|window-byte", "move_window shifts the row pattern by the old window offset when refilling the window", mw.id)
+            else:
+                res.undecided += 1
         # kxp refresh
         res.obligations += 1
         okk = False
@@ -309,7 +356,26 @@ def run(prog, ctx):
             res.discharged += 1
             n_m += 1
         else:
-            res.violate("C05.M", "C05.M|kxp", "move_window does not refresh KXP exactly when new_offset & 7 == 0", mw.id)
+            # by value: the refresh call must be reached exactly for the offsets whose successor is a multiple of 8
+            verdict = None
+            calls = [b for b, site in mw.calls() if (site.get("callee") or "").endswith("::refresh_kxp")]
+            if calls:
+                fp = C.facts_pred(s, calls[0])
+                verdict = True
+                for o in range(0, 56):
+                    holds, n_ev = fp({"@prog": prog, "self.window_offset": o})
+                    if n_ev == 0:
+                        verdict = None
+                        break
+                    if holds != (((o + 1) & 7) == 0):
+                        verdict = False
+            if verdict is True:
+                res.discharged += 1
+                n_m += 1
+            elif verdict is False:
+                res.violate("C05.M", "C05.M|kxp", "move_window does not refresh KXP exactly when new_offset & 7 == 0", mw.id)
+            else:
+                res.undecided += 1
     res.rule("C05.M", n_m, 4, "window-move obligations")
     # ---------------- C05.D deletion from the open-addressing pair table: the run after the freed slot is re-inserted up to
     # the next EMPTY slot; nothing else may end the scan (an item left behind a hole is unreachable for lookup)
